@@ -589,11 +589,30 @@ func scRoutes(c Case, fc *frameCtx) *evid.Failure {
 	n1a, n2a := tcpip.Address("\x0a\x00\x00\x01"), tcpip.Address("\x0a\x01\x00\x01")
 	s.AddAddress(1, ipv4.ProtocolNumber, n1a)
 	s.AddAddress(2, ipv4.ProtocolNumber, n2a)
-	// overlapping prefixes: the more specific entry is listed first and wins; the default goes through NIC 1
+	a6 := func(hi byte, lo byte) tcpip.Address {
+		b := make([]byte, 16)
+		b[0], b[1], b[3], b[15] = 0xfd, 0x00, hi, lo
+		return tcpip.Address(b)
+	}
+	m6 := func(n int) tcpip.AddressMask {
+		b := make([]byte, 16)
+		for i := 0; i < n; i++ {
+			b[i] = 0xff
+		}
+		return tcpip.AddressMask(b)
+	}
+	n1a6, n2a6 := a6(1, 1), a6(2, 1)
+	s.AddAddress(1, ipv6.ProtocolNumber, n1a6)
+	s.AddAddress(2, ipv6.ProtocolNumber, n2a6)
+	// overlapping prefixes: the more specific entry is listed first and wins; the default goes through NIC 1.
+	// The table is dual-family: the IPv4 rows (with their default) come first, the IPv6 rows after
+	// them send everything but fd00:1::/32 through NIC 2 - a row only matches addresses of its family
 	s.SetRouteTable([]tcpip.Route{
 		{Destination: tcpip.Address("\x0a\x01\x02\x00"), Mask: tcpip.AddressMask("\xff\xff\xff\x00"), NIC: 1},
 		{Destination: tcpip.Address("\x0a\x01\x00\x00"), Mask: tcpip.AddressMask("\xff\xff\x00\x00"), NIC: 2},
 		{Destination: tcpip.Address("\x00\x00\x00\x00"), Mask: tcpip.AddressMask("\x00\x00\x00\x00"), NIC: 1},
+		{Destination: a6(1, 0), Mask: m6(4), NIC: 1},
+		{Destination: tcpip.Address(make([]byte, 16)), Mask: m6(0), NIC: 2},
 	})
 	type exp struct {
 		dst tcpip.Address
@@ -605,7 +624,17 @@ func scRoutes(c Case, fc *frameCtx) *evid.Failure {
 		{tcpip.Address("\x0a\x01\x09\x09"), t2, n2a}, // second entry
 		{tcpip.Address("\x08\x08\x08\x08"), t1, n1a}, // default
 	}
-	sock, e := netsim.NewSock(s, udp.ProtocolNumber, ipv4.ProtocolNumber)
+	net := tcpip.NetworkProtocolNumber(ipv4.ProtocolNumber)
+	if c.V6 {
+		net = ipv6.ProtocolNumber
+		exps = []exp{
+			{a6(1, 9), t1, n1a6}, // fd00:1::/32
+			{a6(2, 9), t2, n2a6}, // IPv6 default
+			{tcpip.Address("\x20\x01\x0d\xb8" + string(make([]byte, 11)) + "\x09"), t2, n2a6}, // IPv6 default
+		}
+		evid.Label("routes:ipv6-through-a-dual-family-table")
+	}
+	sock, e := netsim.NewSock(s, udp.ProtocolNumber, net)
 	if e != nil {
 		return nil
 	}
@@ -631,10 +660,10 @@ func scRoutes(c Case, fc *frameCtx) *evid.Failure {
 		}
 		evid.Label(fmt.Sprintf("routes:entry-%d", (i+c.NIC)%len(exps)))
 	}
-	if f := judgeFrames(fc, "tap", t1.Trace(), [][]byte{[]byte(n1a)}); f != nil {
+	if f := judgeFrames(fc, "tap", t1.Trace(), [][]byte{[]byte(n1a), []byte(n1a6)}); f != nil {
 		return f
 	}
-	return judgeFrames(fc, "tap", t2.Trace(), [][]byte{[]byte(n2a)})
+	return judgeFrames(fc, "tap", t2.Trace(), [][]byte{[]byte(n2a), []byte(n2a6)})
 }
 
 func genCase(rt *rapid.T) Case {
